@@ -6,11 +6,13 @@
 (*   utxo     put_received_transparent_utxo(coin c = output of tx t, value v, account, height h) *)
 (*   fulltx   decrypt_and_store_transaction(tx t spending `ins`, paying the wallet `outs`,       *)
 (*            mined at h / not known to be mined, expiry e)                                      *)
+(*   txstatus set_transaction_status(tx t, Mined(h))                                             *)
 (*   coinchk  no operation: the coin projection logged after a shielded operation                *)
 (* After every event the rows of transparent_received_outputs |x| transactions |x|               *)
 (* transparent_received_output_spends and the unshielded balances get_wallet_summary reports     *)
 (* (ConfirmationsPolicy::MIN) must equal the state / the ledger Coins.tla computes.              *)
-(* Switch (IOEnv, must be set): CHECK_COINS = "1".  EXPLAIN = "1" prints the model's expectation *)
+(* Switches (IOEnv, must be set): CHECK_COINS = "1"; CHECK_KNOWN_SPENDERS = "1" adds the         *)
+(* property-level law the conflicting-spender caveat breaks.  EXPLAIN = "1" prints the model's expectation *)
 (* for a disagreeing projection (line "EXPLAINC") and lets the trace continue.                    *)
 EXTENDS Trace_Wallet
 
@@ -29,6 +31,9 @@ CoinsAgree(cp) ==
     \/ IOEnv.CHECK_COINS # "1"
     \/ /\ { LoggedCoinRow(cp.rows[i]) : i \in DOMAIN cp.rows } = { C!RowOf(cs', c) : c \in DOMAIN cs'.coins }
        /\ Len(cp.rows) = Cardinality(DOMAIN cs'.coins)
+       /\ (IOEnv.CHECK_KNOWN_SPENDERS = "1") =>     \* optional, see MC_Coins!KnownMinedSpenderWins: a coin is not counted while a
+             \A k \in cs'.smap :                      \* transaction the wallet stored in full, mined at or below the tip, spends it
+                (k[2] \in DOMAIN cs'.coins /\ cs'.ttx[k[1]].mined # -1 /\ cs'.ttx[k[1]].mined < tip' + 1) => ~C!Counted(cs', k[2], tip' + 1)
        /\ cp.balp =>                          \* no summary, no claim (as for the shielded pools)
              \A a \in 1..2 :
                 /\ << cp.bal[a][1], cp.bal[a][2] >> \in { C!LedgerT(cs', a, tip' + 1), C!LedgerTGrouped(cs', a, tip' + 1) }
@@ -63,6 +68,14 @@ TFullTx == /\ IsEvent("fulltx") /\ WalletSame
                      /\ cs' = cs
            /\ PostOK(Rec[l].post) /\ CoinsOK(Rec[l].coins)
 
+TTxStatus == /\ IsEvent("txstatus") /\ WalletSame
+             /\ LET r == Rec[l]
+                IN  \/ /\ r.res = "ok" /\ tip # -1
+                       /\ cs' = C!SetMined(cs, r.t, r.h)
+                    \/ /\ r.res = "err" /\ (tip = -1 \/ C!Remines(cs, r.t, r.h))
+                       /\ cs' = cs
+             /\ PostOK(Rec[l].post) /\ CoinsOK(Rec[l].coins)
+
 \* every operation of Trace_Wallet, with what it does to the coins: nothing - except a rewind, which un-mines
 \* every transaction above the height the wallet settled on (and a reset, which is a new wallet).
 \* (cs' is fixed first: with every primed variable determined TLC evaluates the projections as plain predicates.)
@@ -70,7 +83,7 @@ CoinTraceNext ==
     \/ (cs' = C!Empty /\ TReset)
     \/ (UNCHANGED cs /\ (TBlock \/ TTip \/ TScan \/ TFresh \/ TPropose \/ TLock \/ TUnlock \/ TClear \/ TSuggest \/ TSyncDone \/ TRoots))
     \/ (l <= Len(Rec) /\ Rec[l].a = "trunc" /\ cs' = (IF Rec[l].res = "ok" THEN C!Truncate(cs, Rec[l].to) ELSE cs) /\ TTrunc)
-    \/ TUtxo \/ TFullTx \/ TCoinChk
+    \/ TUtxo \/ TFullTx \/ TTxStatus \/ TCoinChk
 
 CoinTraceInit == TraceInit /\ cs = C!Empty
 CoinTraceSpec == CoinTraceInit /\ [][CoinTraceNext]_ctvars
